@@ -11,7 +11,10 @@ import numpy as np
 
 RULE = ("translator: every traced function is validated on 60 random inputs per run (irrun vs real "
         "function); numeric support: random geodetic points incl. poles/equator/+-180 deg/all octants, "
-        "altitudes -10 km..40000 km; a case is distinct by its rounded (lat, lon, alt) triple")
+        "altitudes -10 km..40000 km; a case is distinct by its rounded (lat, lon, alt) triple; call histories: every "
+        "array-returning function is called, the caller modifies the returned array in place (negate a column / scale / "
+        "zero / add), the same query is repeated in scalar and vectorised form and through the functions that use it "
+        "internally (lla_to_ned, gravitation_ecef, perturb_lla) - distinct by (kind, point, length)")
 
 
 def _points(rng, n):
@@ -193,6 +196,237 @@ def numeric_statements(r, n, pts_override=None):
     return fails
 
 
+# ---------------------------------------------------------------------------------------------------------------
+# Call HISTORIES.  The property is about pure functions of (lat, lon, alt): whatever a caller did before - in
+# particular writing into an array an earlier call returned - every later result must still be the model value
+# (closed forms below = Spec/Ellipsoid.v and the characterising theorems of Props/C16.v, with the model's literals),
+# a result must not share memory with an earlier result, and array arguments must come back unchanged.
+# A history is a json-able list of ops:  ["call", name, [args...]]  |  ["mutate", k, kind, j]  (k = index of an earlier
+# call in the history whose returned object is modified in place by the caller).
+_MA, _ME2, _MRATE, _MGE, _MFG = 6378137.0, 66943799901413 / 1e16, 1458423 / 2e10, 97803253359 / 1e10, \
+    3863705292792563 / 2e18
+
+
+def _m_radii(lat, alt):
+    s = math.sin(math.radians(lat))
+    w = 1 - _ME2 * s * s
+    re = _MA / math.sqrt(w)
+    return re * (1 - _ME2) / w + alt, re + alt, (re + alt) * math.cos(math.radians(lat))
+
+
+def _m_mat_en(lat, lon):
+    sp, cp = math.sin(math.radians(lat)), math.cos(math.radians(lat))
+    sl, cl = math.sin(math.radians(lon)), math.cos(math.radians(lon))
+    return np.array([[-sp * cl, -sl, -cp * cl], [-sp * sl, cl, -cp * sl], [cp, 0.0, -sp]])
+
+
+def _m_ecef(lat, lon, alt):
+    _, re, rp = _m_radii(lat, alt)
+    return np.array([rp * math.cos(math.radians(lon)), rp * math.sin(math.radians(lon)),
+                     ((1 - _ME2) * (re - alt) + alt) * math.sin(math.radians(lat))])
+
+
+def _m_gravity(lat, alt):
+    s2 = math.sin(math.radians(lat)) ** 2
+    return _MGE * (1 + _MFG * s2) / math.sqrt(1 - _ME2 * s2) * (1 - 2 * alt / _MA)
+
+
+def _model(name, a):
+    base = name.split('[')[0]
+    if base == 'mat_en_from_ll':
+        return _m_mat_en(a[0], a[1])
+    if base == 'curvature_matrix':
+        rn, re, _ = _m_radii(a[0], a[1])
+        F = np.zeros((3, 3))
+        F[0, 1], F[1, 0], F[2, 1] = 1 / re, -1 / rn, -math.tan(math.radians(a[0])) / re
+        return F
+    if base == 'gravity_n':
+        return np.array([0.0, 0.0, _m_gravity(a[0], a[1])])
+    if base == 'rate_n':
+        return np.array([_MRATE * math.cos(math.radians(a[0])), 0.0, -_MRATE * math.sin(math.radians(a[0]))])
+    if base == 'principal_radii':
+        return np.array(_m_radii(a[0], a[1]))
+    if base == 'lla_to_ecef':
+        return _m_ecef(*a)
+    if base == 'ecef_to_lla':
+        return np.array(a, dtype=float)
+    if base == 'lla_to_ned':
+        return _m_mat_en(a[3], a[4]).T @ (_m_ecef(*a[:3]) - _m_ecef(*a[3:]))
+    if base == 'perturb_lla':
+        rn, _, rp = _m_radii(a[0], a[2])
+        return np.array([a[0] + math.degrees(a[3] / rn), a[1] + math.degrees(a[4] / rp), a[2] - a[5]])
+    if base == 'gravitation_ecef':
+        _, _, rp = _m_radii(a[0], a[2])
+        sp, cp = math.sin(math.radians(a[0])), math.cos(math.radians(a[0]))
+        return _m_mat_en(a[0], a[1]) @ np.array([_MRATE ** 2 * rp * sp, 0.0, _m_gravity(a[0], a[2]) + _MRATE ** 2 * rp * cp])
+    raise KeyError(name)
+
+
+# absolute tolerance per output (>= 1000x the rounding of the quantity), relative 1e-9
+_HTOL = {'mat_en_from_ll': 1e-12, 'curvature_matrix': 1e-19, 'gravity_n': 1e-11, 'rate_n': 1e-19, 'principal_radii': 1e-5,
+         'lla_to_ecef': 1e-5, 'ecef_to_lla': np.array([1e-7, 1e-7, 1e-2]), 'lla_to_ned': 1e-5,
+         'perturb_lla': np.array([1e-10, 1e-10, 1e-8]), 'gravitation_ecef': 1e-10}
+
+
+def _impl(name, a):
+    """returns (raw result, list of (argument array, its copy before the call))"""
+    from pyins import earth, transform
+    base, vec = name.split('[')[0], name.endswith('[vec]')
+    arrs = []
+
+    def A(x):
+        v = np.array(x, dtype=float)
+        arrs.append((v, v.copy()))
+        return v
+    if base in ('mat_en_from_ll', 'curvature_matrix', 'gravity_n', 'principal_radii'):
+        fn = getattr(transform if base == 'mat_en_from_ll' else earth, base)
+        if vec:
+            out = fn(A([a[0]]), A([a[1]]))
+            return (tuple(o for o in out) if isinstance(out, tuple) else out), arrs
+        return fn(a[0], a[1]), arrs
+    if base == 'rate_n':
+        return (earth.rate_n(A([a[0]])) if vec else earth.rate_n(a[0])), arrs
+    if base == 'lla_to_ecef':
+        return (transform.lla_to_ecef(A([list(a)])) if vec else transform.lla_to_ecef(A(list(a)))), arrs
+    if base == 'ecef_to_lla':
+        return transform.ecef_to_lla(A(_m_ecef(*a))), arrs
+    if base == 'lla_to_ned':
+        return transform.lla_to_ned(A([list(a[:3])]), A(list(a[3:]))), arrs
+    if base == 'perturb_lla':
+        return transform.perturb_lla(A(list(a[:3])), A(list(a[3:]))), arrs
+    if base == 'gravitation_ecef':
+        return earth.gravitation_ecef(A(list(a))), arrs
+    raise KeyError(name)
+
+
+def _members(raw):
+    return [x for x in (raw if isinstance(raw, tuple) else (raw,)) if isinstance(x, np.ndarray)]
+
+
+def _value(name, raw):
+    if isinstance(raw, tuple):
+        v = np.array([float(np.ravel(x)[0]) for x in raw])
+    else:
+        v = np.asarray(raw, dtype=float)
+        want_nd = 2 if name.split('[')[0] in ('mat_en_from_ll', 'curvature_matrix') else 1
+        while v.ndim > want_nd:
+            v = v[0]
+    return v
+
+
+def _mutate(raw, kind, j):
+    for x in _members(raw):
+        if not x.flags.writeable:
+            continue
+        if kind == 'negate':
+            if x.ndim == 0:
+                x[...] = -x
+            else:
+                x[..., j % x.shape[-1]] *= -1
+        elif kind == 'scale':
+            x *= 1e-3
+        elif kind == 'zero':
+            x[...] = 0
+        else:
+            x += 1.0
+
+
+def run_history(ops):
+    """Execute a history on the implementation; returns (failures, log).  A failure is (what, step index, detail)."""
+    raws, fails, log = {}, [], []
+    for i, op in enumerate(ops):
+        if op[0] == 'mutate':
+            _mutate(raws[op[1]], op[2], op[3])
+            log.append(f"{i}: caller modifies the result of step {op[1]} in place ({op[2]})")
+            continue
+        _, name, a = op
+        base = name.split('[')[0]
+        try:
+            raw, arrs = _impl(name, a)
+            got = _value(name, raw)
+        except Exception as ex:
+            fails.append((f"{base}: call raises after an earlier result was modified by its caller", i, repr(ex)))
+            log.append(f"{i}: {name}{tuple(a)} raised {ex!r}")
+            continue
+        want = _model(name, a)
+        tol = _HTOL[base] + 1e-9 * np.abs(want)
+        ok = got.shape == want.shape and bool(np.all(np.isfinite(got))) and bool(np.all(np.abs(got - want) <= tol))
+        if base == 'ecef_to_lla' and got.shape == want.shape:       # longitude is defined modulo 360
+            d = got - want
+            d[1] = (d[1] + 180) % 360 - 180
+            ok = bool(np.all(np.isfinite(got))) and bool(np.all(np.abs(d) <= tol))
+        log.append(f"{i}: {name}{tuple(a)} -> {np.ravel(got).tolist()}" + ("" if ok else f"   MODEL {np.ravel(want).tolist()}"))
+        if not ok:
+            fails.append((f"{base}: result depends on the history of calls (differs from the closed form after a caller "
+                          f"modified an earlier result in place)" if any(o[0] == 'mutate' for o in ops[:i])
+                          else f"{base}: result differs from the closed form", i,
+                          dict(got=np.ravel(got).tolist(), want=np.ravel(want).tolist())))
+        for k, old in raws.items():
+            if any(np.shares_memory(x, y) for x in _members(raw) for y in _members(old)):
+                fails.append((f"{base}: returned array shares memory with the array returned by an earlier call "
+                              f"(step {k}: {ops[k][1]})", i, dict(earlier_step=k)))
+                break
+        for v, v0 in arrs:
+            if not np.array_equal(v, v0):
+                fails.append((f"{base}: the call modified its array argument", i, dict(before=v0.tolist(), after=v.tolist())))
+        raws[i] = raw
+    return fails, log
+
+
+def _histories(rng, n):
+    kinds = ['negate', 'scale', 'zero', 'add']
+    out = []
+    for k in range(n):
+        lat = rng.choice([0.0, 45.0, -45.0, float(rng.randint(-80, 80)), rng.uniform(-89, 89)]) if k % 3 == 0 \
+            else rng.uniform(-89, 89)
+        lon = rng.choice([0.0, 180.0, -90.0, rng.uniform(-180, 180)]) if k % 4 == 0 else rng.uniform(-180, 180)
+        alt = rng.uniform(-1e3, 1e5)
+        d = [rng.uniform(-50, 50) for _ in range(3)]
+        p = list(_model('perturb_lla', [lat, lon, alt] + d))
+        mk = lambda: ['mutate', None, rng.choice(kinds), rng.randrange(3)]
+
+        def hist(calls):
+            """calls: names (with args); after the first call of each name its result is modified, then it is repeated"""
+            ops = []
+            for name, a in calls:
+                ops.append(['call', name, a])
+                m = mk()
+                m[1] = len(ops) - 1
+                ops.append(m)
+                ops.append(['call', name, a])
+            return ops
+        frame = hist([('mat_en_from_ll', [lat, lon])]) + [
+            ['call', 'mat_en_from_ll[vec]', [lat, lon]],
+            ['call', 'lla_to_ned', p + [lat, lon, alt]],
+            ['call', 'gravitation_ecef', [lat, lon, alt]]] + \
+            hist([('lla_to_ned', p + [lat, lon, alt]), ('gravitation_ecef', [lat, lon, alt]),
+                  ('mat_en_from_ll[vec]', [lat, lon])]) + [['call', 'mat_en_from_ll', [lat, lon]]]
+        earth_h = hist([('curvature_matrix', [lat, alt]), ('gravity_n', [lat, alt]), ('rate_n', [lat]),
+                        ('principal_radii', [lat, alt]), ('curvature_matrix[vec]', [lat, alt]),
+                        ('gravity_n[vec]', [lat, alt]), ('rate_n[vec]', [lat]), ('principal_radii[vec]', [lat, alt])]) + [
+            ['call', 'curvature_matrix', [lat, alt]], ['call', 'gravity_n', [lat, alt]], ['call', 'rate_n', [lat]]]
+        geo = hist([('lla_to_ecef', [lat, lon, alt]), ('perturb_lla', [lat, lon, alt] + d),
+                    ('ecef_to_lla', [lat, lon, alt]), ('lla_to_ecef[vec]', [lat, lon, alt])])
+        out += [('frame', frame), ('earth', earth_h), ('geodetic', geo)]
+    return out
+
+
+def history_statements(r, n):
+    rng = random.Random(r.seed + 1616)
+    fails, dist = [], {}
+    for kind, ops in _histories(rng, n):
+        first = ops[0][2]
+        r.case(("hist", kind, round(first[0], 6), round(first[-1], 6), len(ops)),
+               sample=dict(kind=kind, history=ops[:4]))
+        dist[kind] = dist.get(kind, 0) + 1
+        fl, _ = run_history(ops)
+        if fl:
+            what, step, detail = fl[0]
+            # shortest prefix that still fails makes the replay easy to read
+            fails.append((what, dict(history=ops[:step + 1], failing_step=step, detail=detail)))
+    return fails, dist
+
+
 def check(r):
     r.trusted += [
         "translator tools/sym.py + tools/ir2coq.py (symbolic tracing of earth.py, transform.py, _numba_integrate.gravity)",
@@ -223,6 +457,13 @@ def check(r):
     r.coverage['numeric_support'] = dict(points=n, failures=len(fails))
     for what, rep in fails[:5]:
         r.violation(what, rep)
+    hfails, hdist = history_statements(r, 60 if r.tier == 'quick' else 1500)
+    r.coverage['call_histories'] = dict(histories=hdist, failures=len(hfails),
+                                        note="result modified in place by the caller, then the query is repeated "
+                                             "(scalar, vectorised, dependent functions); model value, no shared memory, "
+                                             "arguments unchanged")
+    for what, rep in hfails[:3]:
+        r.violation(what, rep)
     if r.tier == 'thorough':
         # Tier B (Interval): accuracy of Olson's series guess on the ellipsoid surface
         r.prove('Props/C16B.v')
@@ -235,6 +476,10 @@ def falsify(r):
     fails = numeric_statements(r, 3000)
     for what, rep in fails[:5]:
         r.violation(what, rep)
+    if not r.violations:
+        hfails, _ = history_statements(r, 100)
+        for what, rep in hfails[:3]:
+            r.violation(what, rep)
 
 
 def replay(obj):
@@ -243,6 +488,14 @@ def replay(obj):
     rep = obj.get('replay', obj)
     print("recorded:", obj.get('what'), json.dumps(rep)[:600])
     pt = None
+    if isinstance(rep, dict) and 'history' in rep:
+        fl, log = run_history(rep['history'])
+        print("\n".join(log))
+        for what, step, d in fl[:5]:
+            print(f"STILL FAILS at step {step}:", what, json.dumps(d, default=str)[:400])
+        if not fl:
+            print("every result of the history equals the model value; no shared memory; arguments unchanged")
+        return 1 if fl else 0
     if isinstance(rep, dict):
         if 'lla' in rep:
             pt = tuple(float(x) for x in rep['lla'][:3])
